@@ -298,7 +298,7 @@ func (runInfo *runInfoStruct) callVMFunctionDirect(f reflect.Value, callExpr *as
 		if runInfo.err != nil {
 			return true
 		}
-		args = append(args, runInfo.rv)
+		args = append(args, detachValue(runInfo.rv))
 	}
 
 	if !runInfo.options.Debug {
@@ -444,7 +444,7 @@ func (runInfo *runInfoStruct) makeCallArgs(rt reflect.Type, isRunVMFunction bool
 			return nil, false
 		}
 		if isRunVMFunction {
-			args = append(args, reflect.ValueOf(runInfo.rv))
+			args = append(args, reflect.ValueOf(detachValue(runInfo.rv)))
 		} else {
 			runInfo.rv, runInfo.err = convertReflectValueToType(runInfo.rv, rt.In(indexInReal))
 			if runInfo.err != nil {
@@ -472,7 +472,7 @@ func (runInfo *runInfoStruct) makeCallArgs(rt reflect.Type, isRunVMFunction bool
 			return nil, false
 		}
 		if isRunVMFunction {
-			args = append(args, reflect.ValueOf(runInfo.rv))
+			args = append(args, reflect.ValueOf(detachValue(runInfo.rv)))
 		} else {
 			runInfo.rv, runInfo.err = convertReflectValueToType(runInfo.rv, rt.In(indexInReal))
 			if runInfo.err != nil {
@@ -546,7 +546,7 @@ func (runInfo *runInfoStruct) makeCallArgs(rt reflect.Type, isRunVMFunction bool
 			return nil, false
 		}
 		if isRunVMFunction {
-			args = append(args, reflect.ValueOf(runInfo.rv))
+			args = append(args, reflect.ValueOf(detachValue(runInfo.rv)))
 		} else {
 			runInfo.rv, runInfo.err = convertReflectValueToType(runInfo.rv, rt.In(indexInReal))
 			if runInfo.err != nil {
